@@ -618,12 +618,115 @@ func genFind(c *hx.Ctx) {
 	}
 }
 
+// ---- collection features replaced inside a mutable world ----------------------------------------------
+
+var historyID = b6.MakeCollectionID("diagonal.works/test", 1)
+
+func readBack(w b6.World) (b6.CollectionFeature, string) {
+	cf := b6.FindCollectionByID(historyID, w)
+	if cf == nil {
+		return nil, "err"
+	}
+	var ks, vs []any
+	i := cf.BeginUntyped()
+	for {
+		ok, err := i.Next()
+		if !ok || err != nil {
+			break
+		}
+		ks = append(ks, i.Key())
+		vs = append(vs, i.Value())
+	}
+	flag := 0
+	if cf.IsSortedByKey() {
+		flag = 1
+	}
+	return cf, fmt.Sprintf("%d %s %s", flag, toks(ks), toks(vs))
+}
+
+// genHistory: add a collection feature to a BasicMutableWorld (optionally continuing in a MutableOverlayWorld
+// on top of it), replace it several times by features with the same ID but other keys / sizes / orders, each
+// Sort()ed or not, and after every step look up every key and some absent ones through the world.
+func genHistory(c *hx.Ctx) {
+	r := c.Rand
+	base := ingest.NewBasicMutableWorld()
+	var w ingest.MutableWorld = base
+	c.Op("wnew", "ok")
+	steps := 2 + r.Intn(4)
+	overlayAt := -1
+	if r.Bool() {
+		overlayAt = r.Intn(steps)
+	}
+	keyKind := []int{0, 0, 1, 2, 4}[r.Intn(5)]
+	prevSorted, sawStale := false, false
+	for step := 0; step < steps; step++ {
+		if step == overlayAt {
+			w = ingest.NewMutableOverlayWorld(base)
+			c.Op("woverlay", "ok")
+			c.Note("history:overlay")
+		}
+		n := r.Intn(9)
+		if r.Chance(1, 6) {
+			n = 9 + r.Intn(20)
+		}
+		f := &ingest.CollectionFeature{CollectionID: historyID}
+		for i := 0; i < n; i++ {
+			f.Keys = append(f.Keys, genVal(r, keyKind))
+			f.Values = append(f.Values, fmt.Sprintf("s%dv%d", step, i))
+		}
+		if r.Chance(1, 4) { // descending keys: the worst case for a stale flag
+			sort.SliceStable(f.Keys, func(a, b int) bool { return goLess(f.Keys[b], f.Keys[a]) })
+		}
+		sorted := r.Bool()
+		flag := 0
+		if sorted {
+			f.Sort()
+			flag = 1
+		}
+		if prevSorted && !sorted {
+			sawStale = true
+			c.Note("history:sorted-replaced-by-unsorted")
+		}
+		prevSorted = sorted
+		opText := fmt.Sprintf("wadd %d %s %s", flag, toks(f.Keys), toks(f.Values))
+		keys := append([]any{}, f.Keys...)
+		if err := w.AddFeature(f); err != nil {
+			c.Op(opText, "err")
+			return
+		}
+		cf, back := readBack(w)
+		c.Op(opText, back)
+		if cf == nil {
+			return
+		}
+		probes := append([]any{}, keys...)
+		for q := 0; q < 3; q++ {
+			probes = append(probes, genVal(r, keyKind))
+		}
+		for _, p := range probes {
+			p := p
+			c.Op("wfv "+tok(p), hx.Recover(func() string {
+				v, ok := cf.FindValue(p)
+				if !ok {
+					return "none"
+				}
+				return "some " + tok(v)
+			}))
+			c.Op("wfvs "+tok(p), hx.Recover(func() string { return toks(cf.FindValues(p, nil)) }))
+		}
+		c.Note("history:step")
+	}
+	if sawStale {
+		c.NonTrivial()
+	}
+}
+
 func arr(keys []any, vals []any) *node { return &node{kind: "arr", keys: keys, vals: vals} }
 
 func main() {
 	hx.Main(hx.Family{
 		Name: "c24",
-		Rule: "three evaluations of a random expression tree (depth <= 3) of take/filter/map/map-items/flatten/join-missing over literal collections (ints, floats, strings, feature IDs; empty, duplicates, ties, occasionally mixed types), under a root of none/count/top n/sum-by-key/count-values/count-keys/count-valid-keys, with n from {-3..8, large, min/max int}; plus two FindValue/FindValues probes on a CollectionFeature (sorted by Sort() or not); non-trivial = at least one function applied and a non-error answer; distinct = by hash of the op text",
+		Rule: "three evaluations of a random expression tree (depth <= 3) of take/filter/map/map-items/flatten/join-missing over literal collections (ints, floats, strings, feature IDs; empty, duplicates, ties, occasionally mixed types), under a root of none/count/top n/sum-by-key/count-values/count-keys/count-valid-keys, with n from {-3..8, large, min/max int}; plus two FindValue/FindValues probes on a CollectionFeature (sorted by Sort() or not); in 1 case of 3 a history on a BasicMutableWorld / MutableOverlayWorld: a collection feature is added and replaced 1-4 times by same-ID features of other sizes and key orders (Sort()ed or not) and every key plus absent keys are looked up through the world after each step; non-trivial = at least one function applied and a non-error answer; distinct = by hash of the op text",
 		Quick:    2500,
 		Thorough: 120000,
 		Corpus: func(c *hx.Ctx) {
@@ -671,6 +774,9 @@ func main() {
 				note(c, root, n, ans)
 			}
 			genFind(c)
+			if c.Rand.Chance(1, 3) {
+				genHistory(c)
+			}
 		},
 	})
 }
